@@ -107,6 +107,25 @@ impl Session {
     pub fn unknown_notification(&mut self, method: &str) {
         self.push(ClientOp::UnknownNotification {
             method: method.to_string(),
+            params: None,
+        });
+    }
+
+    /// Notifications the server does not implement, with the params real clients send: a
+    /// cancellation of the request issued last (already answered, or still in the pipe), a trace
+    /// setting, a configuration change, a progress report.
+    pub fn client_chatter(&mut self, kind: usize) {
+        let last = self.next_id.wrapping_sub(self.stride);
+        let (method, params) = match kind % 5 {
+            0 => ("$/cancelRequest", serde_json::json!({"id": last})),
+            1 => ("$/cancelRequest", serde_json::json!({"id": last.wrapping_add(1000)})),
+            2 => ("$/setTrace", serde_json::json!({"value": "off"})),
+            3 => ("workspace/didChangeConfiguration", serde_json::json!({"settings": {"spl": {"x": 1}}})),
+            _ => ("$/progress", serde_json::json!({"token": "t1", "value": {"kind": "end"}})),
+        };
+        self.push(ClientOp::UnknownNotification {
+            method: method.to_string(),
+            params: Some(params),
         });
     }
 
